@@ -13,7 +13,7 @@ import (
 	"verifharness/internal/val"
 )
 
-var c20Floor = []string{"set", "get", "get.unset", "get.after-set-same-row", "get.before-set-same-row", "set.overwrite", "set.expr", "set.literal", "where", "prepopulated", "queries.2", "queries.3+", "keys.multi", "table.empty", "dual", "prebuilt"}
+var c20Floor = []string{"set", "get", "get.unset", "get.after-set-same-row", "get.before-set-same-row", "set.overwrite", "set.expr", "set.literal", "where", "prepopulated", "queries.2", "queries.3+", "keys.multi", "table.empty", "dual", "prebuilt", "order.projected", "order.unprojected", "grouped", "grouped.having"}
 
 func init() {
 	fw.Register(&fw.Prop{
@@ -31,15 +31,17 @@ func init() {
 		MinNontrivial: 50,
 		Phases: []fw.Phase{
 			{Name: "history", N: func(t fw.Tier) int { return pick(t, 10000, 400000) }, Run: c20Run},
+			{Name: "grouped", N: func(t fw.Tier) int { return pick(t, 1000, 30000) }, Run: c20Grouped},
 		},
 		Witness: sqlWitness,
 	})
 }
 
 type c20Step struct {
-	sql   string
-	want  []any
-	store map[string]any
+	sql     string
+	want    []any
+	store   map[string]any
+	ordered bool // the query has an ORDER BY: rows are compared as a multiset
 }
 
 // execBuilt executes an already constructed query, catching an escaped panic.
@@ -198,6 +200,29 @@ func c20Run(c *fw.Case) {
 		if where != nil {
 			sql += " WHERE " + gen.RenderPred(where, ro)
 		}
+		// ORDER BY sorts what is returned; the rows are still evaluated in source order
+		ordered := false
+		if !dual && (force == "order.projected" || force == "order.unprojected" || c.Chance(0.2)) {
+			ordered = true
+			key := gen.Pick(c.R, []string{"n1", "n2", "s1", "rid", "b1"})
+			projected := false
+			for _, it := range items {
+				if it.kind == "col" && it.col == key {
+					projected = true
+				}
+			}
+			if force == "order.projected" && !projected {
+				key, projected = "rid", true
+				sql = strings.Replace(sql, "SELECT ", "SELECT rid, ", 1)
+				items = append([]c20Item{{kind: "col", col: "rid"}}, items...)
+			}
+			if projected {
+				feats = append(feats, "order.projected")
+			} else {
+				feats = append(feats, "order.unprojected")
+			}
+			sql += " ORDER BY " + key + gen.Pick(c.R, []string{"", " ASC", " DESC"})
+		}
 		history = append(history, sql)
 		// model
 		var want []any
@@ -260,7 +285,7 @@ func c20Run(c *fw.Case) {
 			}
 			want = append(want, out)
 		}
-		plan = append(plan, c20Step{sql: sql, want: want, store: val.CopyMap(model)})
+		plan = append(plan, c20Step{sql: sql, want: want, store: val.CopyMap(model), ordered: ordered})
 	}
 	// execution: either each query is constructed and executed in turn, or -
 	// 'prebuilt' - every query of the history is constructed first (all given
@@ -295,7 +320,12 @@ func c20Run(c *fw.Case) {
 			c.Violate("error", fmt.Sprintf("query %d of the history failed: %v", qi, o.Describe()), det)
 			return
 		}
-		if !(len(o.Rows) == 0 && len(want) == 0) && !val.SameSeq(o.Rows, want) {
+		sameRows := val.SameSeq(o.Rows, want)
+		if st.ordered {
+			// the output order is C05's business; the values each row saw are not
+			sameRows = val.SameMultiset(o.Rows, want)
+		}
+		if !(len(o.Rows) == 0 && len(want) == 0) && !sameRows {
 			c.Feature(feats...)
 			kind := "wrong-value"
 			if len(o.Rows) == len(want) && len(want) > 0 {
@@ -316,5 +346,88 @@ func c20Run(c *fw.Case) {
 	c.Sample(map[string]any{"history": history, "initial_vars_keys": len(vars), "rows": len(t.Rows)})
 	if observedWrite {
 		c.Nontrivial(strings.Join(history, ";") + val.Canon(t.Array()))
+	}
+}
+
+// c20Grouped: registers in the select list of a grouped query. The order in
+// which groups are evaluated is not defined by the property, so the oracle
+// uses order-independent consequences of "each group's select list is
+// evaluated once, left to right, against one store": a counter incremented per
+// group ends at the number of groups and the groups see 1..G; exactly one
+// group reads `prev` before any write; the other groups' `prev` values and the
+// final store value are the G group keys, each once.
+func c20Grouped(c *fw.Case) {
+	t := gen.RandTable(c.R, gen.TableSpec{Name: "t1", MinRows: 1, MaxRows: pick(c.Tier, 12, 30), NumCols: 1, StrCols: 1, StrStyle: gen.Plain, PoolSize: 2 + c.Intn(4)})
+	having := c.Idx%2 == 0
+	sql := "SELECT s1, GETVAR('prev') AS prev, SETVAR('prev', s1), SETVAR('c', GETVAR('c') + 1), GETVAR('c') AS c, COUNT(*) AS n FROM t1 GROUP BY s1"
+	c.Feature("grouped")
+	if having {
+		sql += gen.Pick(c.R, []string{" HAVING COUNT(*) >= 1", " HAVING COUNT(*) > 0", " HAVING MAX(n1) >= MIN(n1)"})
+		c.Feature("grouped.having")
+	}
+	groups := map[string]bool{}
+	for _, r := range t.Rows {
+		groups[r["s1"].(string)] = true
+	}
+	G := len(groups)
+	vars := map[string]any{"c": 0.0}
+	o := Run(DocOf(t), sql, genql.WithVars(vars))
+	c.Evals(1)
+	c.Sample(map[string]any{"sql": sql, "groups": G})
+	det := map[string]any{"sql": sql, "doc": DocOf(t), "observed": o.Describe(), "observed_store": val.Show(vars), "groups": G}
+	if !o.OK() {
+		c.Violate("error", fmt.Sprintf("grouped query with registers failed: %v", o.Describe()), det)
+		return
+	}
+	if len(o.Rows) != G {
+		c.Violate("wrong-value", fmt.Sprintf("%d groups out, the table has %d", len(o.Rows), G), det)
+		return
+	}
+	seenC := map[float64]bool{}
+	prevs := map[string]int{}
+	nulls := 0
+	for _, r := range o.Rows {
+		m, _ := r.(map[string]any)
+		cv, _ := val.Rat(val.Deref(m["c"])).Float64()
+		seenC[cv] = true
+		switch p := val.Deref(m["prev"]).(type) {
+		case nil:
+			nulls++
+		case string:
+			prevs[p]++
+		}
+	}
+	for i := 1; i <= G; i++ {
+		if !seenC[float64(i)] {
+			c.Violate("wrong-value", fmt.Sprintf("a counter incremented once per group must show 1..%d over the groups; %d is missing (a select list evaluated more or less than once per group)", G, i), det)
+			return
+		}
+	}
+	if fc, _ := val.Rat(vars["c"]).Float64(); fc != float64(G) {
+		c.Violate("store", fmt.Sprintf("after Exec the counter in the caller's map is %v, one increment per group gives %d", vars["c"], G), det)
+		return
+	}
+	if nulls != 1 {
+		c.Violate("wrong-value", fmt.Sprintf("%d groups read `prev` as NULL; exactly the first evaluated group reads it before any write", nulls), det)
+		return
+	}
+	if last, ok := vars["prev"].(string); ok {
+		prevs[last]++
+	}
+	for g := range groups {
+		if prevs[g] != 1 {
+			c.Violate("wrong-value", fmt.Sprintf("group key %q was observed %d times as the previous value (incl. the final store); a single pass makes every key the previous value exactly once", g, prevs[g]), det)
+			return
+		}
+	}
+	// a later query given the same map continues from there
+	after := Run(map[string]any{}, "SELECT GETVAR('c') AS c FROM dual", genql.WithVars(vars))
+	if !after.OK() || len(after.Rows) != 1 || !val.Equal(val.Deref(after.Rows[0].(map[string]any)["c"]), float64(G)) {
+		det["later_query"] = after.Describe()
+		c.Violate("store", fmt.Sprintf("a later query given the same map reads c = %v, expected %d", after.Describe(), G), det)
+		return
+	}
+	if G >= 2 {
+		c.Nontrivial(sql + val.Canon(t.Array()))
 	}
 }
